@@ -562,7 +562,11 @@ EvCheck(t0, p) ==
       raising == \E i \in 1..Len(p.validate) : ~PredRet(p.validate[i].name, t).ok
       others == CheckHolds(t, [p EXCEPT !.validate = SelectSeq(p.validate, LAMBDA v : PredRet(v.name, t).ok),
                                         !.types = IF p.types = <<>> /\ p.inst = <<>> /\ p.vals = <<>> THEN <<PyType(t)>> ELSE @])
-  IN IF CheckHolds(t, p) THEN (IF Mutant = "check_returns_subtarget" THEN Pass(t, <<>>, p.sub = <<>>) ELSE Pass(t0, <<>>, TRUE))
+      \* (mutant check_validator_some_exceptions: only TypeError / ValueError of a validator count as a rejection)
+      escaping == {PredRet(p.validate[i].name, t).exc : i \in {j \in 1..Len(p.validate) : ~PredRet(p.validate[j].name, t).ok}}
+                  \ {"TypeError", "ValueError"}
+  IN IF Mutant = "check_validator_some_exceptions" /\ escaping # {} THEN Fail(escaping, <<>>)
+     ELSE IF CheckHolds(t, p) THEN (IF Mutant = "check_returns_subtarget" THEN Pass(t, <<>>, p.sub = <<>>) ELSE Pass(t0, <<>>, TRUE))
      \* (mutant check_validator_default_raw: the historic behaviour -- when only a validator failed the
      \* default object was returned as it stands, not evaluated as an argument value)
      ELSE IF p.hasdef /\ Mutant = "check_validator_default_raw" /\ CheckHolds(t, [p EXCEPT !.validate = <<>>,
